@@ -57,6 +57,24 @@ def run(ck, replay=None):
     scn = sorted({(p[1], p[2], p[3]) for p in r.printed("SCN")})
     darsia = import_darsia()
     q = darsia.quadrature
+    # the two families of tables (symmetric cell, unit cell) requested under one (dimension, order) key along every
+    # interleaving of spec/TwoObjects.tla ("make" = first request, "use" = a later request): each returns ITS rule
+    from lib import twoobj
+    thists = twoobj.histories(ck)
+    tspecs = []
+    for (d_, n_) in ((1, 0), (2, 1), (3, 2), (2, "max")):
+        def make(o, d_=d_, n_=n_):
+            f = q.gauss if o == "a" else q.gauss_reference_cell
+            f(d_, n_)
+            return f
+
+        def use(o, f, d_=d_, n_=n_):
+            pts, w = f(d_, n_)
+            return [np.array(pts, dtype=float).reshape(len(np.atleast_1d(w)), -1), np.array(w, dtype=float).ravel()]
+
+        tspecs.append((thists, f"gauss-{d_}d-order{n_}", make, use,
+                       lambda x, y: all(p_.shape == q_.shape and np.allclose(p_, q_, rtol=1e-13, atol=1e-15) for p_, q_ in zip(x, y)), f"twin:{d_}:{n_}"))
+    ck.cov["twin_object_histories"] = twoobj.run(ck, "C15", tspecs)
     events = []
     # the tables must not depend on which reference element was requested first, or how often:
     # every rule is requested in the order unit -> sym -> unit -> sym within one process
